@@ -452,4 +452,41 @@ theorem frun_own (path : Nat → Path) (hinj : ∀ a b, path a = path b → a = 
       · cases st <;> simp [fstep, aget_aset_other _ _ _ _ hp, aget_aerase_other _ _ _ hp, hf]
       · cases st <;> simp [fstep, aget_aset_other _ _ _ _ hr, hg]
 
+/-! ### addressing with a memo -/
+
+/-- Every remembered resource is what the discovery answers for any coordinates with that key. -/
+def MemoOk (kf : Coord → Nat) (d : Discovery) (memo : List (Nat × Resource)) : Prop :=
+  ∀ c r, aget memo (kf c) = some r → d c.group c.version c.kind = some r
+
+theorem targetsMemo_sound (kf : Coord → Nat) (d : Discovery)
+    (hk : ∀ c c', kf c = kf c' → c.group = c'.group ∧ c.version = c'.version ∧ c.kind = c'.kind)
+    (cs : List Coord) : ∀ memo, MemoOk kf d memo → targetsMemo kf d memo cs = targets d cs := by
+  induction cs with
+  | nil => intro _ _; rfl
+  | cons c rest ih =>
+    intro memo hm
+    simp only [targetsMemo, targets, List.map_cons, resolveMemo]
+    cases hg : aget memo (kf c) with
+    | some r =>
+      have := hm c r hg
+      simp only [target, this, Option.map_some]
+      rw [ih memo hm]; rfl
+    | none =>
+      cases hd : d c.group c.version c.kind with
+      | none =>
+        simp only [target, hd, Option.map_none]
+        rw [ih memo hm]; rfl
+      | some r =>
+        simp only [target, hd, Option.map_some]
+        have hm' : MemoOk kf d ((kf c, r) :: memo) := by
+          intro c' r' h
+          simp only [aget] at h
+          by_cases he : kf c = kf c'
+          · simp only [he, if_true] at h
+            obtain ⟨h1, h2, h3⟩ := hk c c' he
+            rw [← h1, ← h2, ← h3, hd]; exact h
+          · simp only [he, if_false] at h
+            exact hm c' r' h
+        rw [ih _ hm']; rfl
+
 end ShellOp.Patch
